@@ -157,6 +157,9 @@ func (r *Run) CheckWiring(pop []Comp, points []PointRes) []Complaint {
 	return out
 }
 
+// LookupMismatch prefixes CheckIdentity's complaint about an object obtained through a user lookup.
+const LookupMismatch = "a lookup of "
+
 // CheckIdentity (C01): every injected value is a registered instance (or a wrapper), equals what
 // the by-name lookup returns, and all holders of one name agree.
 func (r *Run) CheckIdentity(pop []Comp) []string {
@@ -194,6 +197,13 @@ func (r *Run) CheckIdentity(pop []Comp) []string {
 	for k := range seen {
 		names = append(names, k)
 	}
+	// what lookups issued by user code (from inside callbacks) were handed counts too: a component that
+	// obtained another one through a lookup holds it just as well as through a field
+	for name := range r.Looked {
+		if _, ok := seen[name]; !ok && (published == nil || published[name]) {
+			names = append(names, name)
+		}
+	}
 	sort.Strings(names)
 	for _, name := range names {
 		var got any
@@ -207,8 +217,14 @@ func (r *Run) CheckIdentity(pop []Comp) []string {
 			out = append(out, fmt.Sprintf("lookup of %q after a successful start failed: %v", name, err))
 			continue
 		}
-		if got != seen[name] {
-			out = append(out, fmt.Sprintf("holders of %q see %p but GetComponentByName returns %p (%T)", name, seen[name], got, got))
+		if h, ok := seen[name]; ok && got != h {
+			out = append(out, fmt.Sprintf("holders of %q see %p but GetComponentByName returns %p (%T)", name, h, got, got))
+		}
+		for _, o := range r.Looked[name] {
+			if o != got {
+				out = append(out, fmt.Sprintf("%s%q from inside a callback was handed %p, the container publishes %p (%T)", LookupMismatch, name, o, got, got))
+				break
+			}
 		}
 	}
 	return out
